@@ -628,3 +628,82 @@ for _labels, _fods in ((["O", "H", "H"], False), (["O", "H", "H"], True), (["C",
                         functions=["eminus.io.traj:write_traj", "eminus.io.traj:read_traj", "eminus.io.xyz:write_xyz"], run=TrajRoundTrip(_labels, _fods),
                         assumes=("engineZ", "z3", "float-format"), budget={"quick": 120, "thorough": 600},
                         doc=f"TRAJ: two frames of {_labels}{' with FODs' if _fods else ''} written and read back: every frame returns every atom / FOD with its species at its (symbolic) position"))
+
+
+class ScfRestart:
+    """BOUNDED native: an SCF object saved to JSON (and HDF5 if h5py is importable) and loaded again reproduces the stored energies bit for
+    bit and continues the minimisation identically (multi-k-point with ragged basis sizes, smearing, GGA)."""
+
+    def case(self, fmt):
+        import dataclasses
+        import os
+        import tempfile
+
+        import eminus
+        from eminus import SCF, Atoms
+        from eminus.io import read, write
+
+        eminus.config.backend = "numpy"
+        eminus.config.verbose = "critical"
+        at = Atoms(["Li", "H"], [[0.2, 0.1, 0.3], [0.4, 0.2, 3.1]], ecut=3, a=[[6.0, 0.3, 0.1], [0.2, 6.5, 0.4], [0.5, 0.1, 7.0]], unrestricted=True)
+        at.kpts.kmesh = [2, 1, 1]
+        at.kpts.kshift = [0.1, 0.0, 0.05]
+        at.occ.smearing = 0.01
+        at.occ.bands = 3
+        scf = SCF(at, xc="pbe", opt={"pccg": 3}, etol=1e-14)
+        scf.run()
+        with tempfile.TemporaryDirectory() as d:
+            fn = os.path.join(d, "scf." + fmt)
+            write(scf, fn)
+            scf2 = read(fn)
+        e1 = {f.name: getattr(scf.energies, f.name) for f in dataclasses.fields(scf.energies)}
+        e2 = {f.name: getattr(scf2.energies, f.name) for f in dataclasses.fields(scf2.energies)}
+        problems = {k: (float(e1[k]), float(e2[k])) for k in e1 if float(e1[k]) != float(e2[k])}
+        for ik in range(len(scf.W)):
+            if not np.array_equal(np.asarray(scf.W[ik]), np.asarray(scf2.W[ik])):
+                problems[f"W[{ik}]"] = "coefficients differ"
+        if not np.array_equal(np.asarray(scf.atoms.occ.f), np.asarray(scf2.atoms.occ.f)):
+            problems["f"] = "fillings differ"
+        # continue both
+        for s in (scf, scf2):
+            s.opt = {"pccg": 2}
+        a, b = scf.run(), scf2.run()
+        if a != b:
+            problems["continued Etot"] = (float(a), float(b))
+        return problems
+
+    def __init__(self, fmt):
+        self.fmt = fmt
+
+    def __call__(self, ob, tier, seed):
+        fmts = [self.fmt]
+        if self.fmt == "hdf5":
+            try:
+                import h5py  # noqa: F401
+            except ImportError:
+                return Result(UNDECIDED, backend="native", detail="h5py is not importable")
+        for fmt in fmts:
+            try:
+                problems = self.case(fmt)
+            except Exception as e:  # noqa: BLE001
+                return Result(REFUTED, backend="native", witness=dict(format=fmt), replayed=True, replay_info=dict(raised=f"{type(e).__name__}: {e}"),
+                              detail=f"saving / loading an SCF object as {fmt} raises {type(e).__name__}: {e}")
+            if problems:
+                return Result(REFUTED, backend="native", witness=dict(format=fmt), replayed=True, replay_info=problems,
+                              detail=f"{fmt}: the restored SCF object differs from the stored one: {problems}")
+        from pycv.framework import BOUNDED_OK
+
+        return Result(BOUNDED_OK, backend="native", detail=f"bounded: LiH, 2 shifted k-points (ragged bases), smearing, PBE, unrestricted: {', '.join(fmts)} restore energies, coefficients and fillings bit for bit and the continued run is identical")
+
+    def replay(self, wit):
+        try:
+            p = self.case(wit["format"])
+        except Exception as e:  # noqa: BLE001
+            return True, dict(raised=f"{type(e).__name__}: {e}")
+        return bool(p), p
+
+
+for _fmt, _funcs in (("json", ["eminus.io.json:write_json", "eminus.io.json:read_json"]), ("hdf5", ["eminus.extras.hdf5:write_hdf5", "eminus.extras.hdf5:read_hdf5"])):
+    register(Obligation(name=f"C17.scf.save_load_continue[{_fmt}]", prop=PROP, engine="B", bounded=True, run=ScfRestart(_fmt), budget={"quick": 300, "thorough": 600},
+                        functions=_funcs + ["eminus.scf:SCF.run"],
+                        doc=f"BOUNDED: an SCF object saved as {_fmt} and loaded again reproduces energies bit for bit and continues identically (multi-k with ragged bases, smearing, GGA)"))
